@@ -94,8 +94,23 @@ pub fn replay(path: &str) -> i32 {
         seed,
         profile: crate::PROFILE,
         threads: std::thread::available_parallelism().map(|n| n.get()).unwrap_or(8),
-        only: None,
-        only_item: v["witness"]["item"].as_u64().filter(|_| sig.ends_with("/call-does-not-return")).map(|x| x as usize),
+        // cell-structured statistical properties: restrict the re-run to the cell named in the signature
+        only: {
+            let parts: Vec<&str> = sig.split('/').collect();
+            if id == "C08" && parts.len() >= 4 {
+                Some(parts[1..].join("/"))
+            } else if id == "C07" && parts.len() >= 4 && parts[1] == "rate" {
+                Some(parts[2..].join("/"))
+            } else if id == "C05" && parts.len() >= 5 && parts[parts.len() - 1] != "first-k-dispersion" {
+                Some(parts[2..parts.len() - 1].join("/"))
+            } else if id == "C05" && sig.ends_with("first-k-dispersion") {
+                Some("dispersion".to_string())
+            } else {
+                None
+            }
+        },
+        // witnesses produced inside the property's main loop carry the work-item index
+        only_item: v["witness"]["item"].as_u64().map(|x| x as usize),
     };
     println!("replaying {} tier={} seed={} signature={}", id, tier.name(), seed, sig);
     if sig.ends_with("/call-does-not-return") {
@@ -121,6 +136,9 @@ pub fn replay(path: &str) -> i32 {
         if let Ok(r) = crate::run_dbg_sub(&ctx) {
             rep.merge(r);
         }
+    }
+    if let Some(it) = ctx.only_item {
+        println!("(re-ran only work item #{} of the main loop)", it);
     }
     let hit: Vec<_> = rep.violations.iter().filter(|x| x.signature == sig).collect();
     if let Some(h) = hit.first() {
